@@ -326,6 +326,10 @@ class Interp:
             return It(a.vec, a.idx + (b if op == '+' else -b), a.gen)
         if isinstance(a, It) and isinstance(b, It) and op == '-':
             return a.idx - b.idx
+        if isinstance(a, Ptr) and isinstance(b, Ptr) and a.rec is None and b.rec is None and op == '-':
+            return 0
+        if isinstance(a, Ptr) and a.rec is None and isinstance(b, int) and op in ('+', '-') and b == 0:
+            return a
         if isinstance(a, Co) and isinstance(b, Co) and op == '-':
             return Df(a.v - b.v)
         if isinstance(a, W) and isinstance(b, W) and op == '+':
@@ -526,6 +530,10 @@ class Interp:
                     tt = int_type(e.get('t'))
                     if tt and not tt[1]:
                         s &= (1 << tt[0]) - 1
+                    elif tt and tt[1]:
+                        s &= (1 << tt[0]) - 1
+                        if s >= (1 << (tt[0] - 1)):
+                            s -= (1 << tt[0])            # two's-complement reinterpretation (size_t difference stored in a ptrdiff_t)
                 val[i] = s
             elif ck in ('IntegralToFloating',):
                 val[i] = s if isinstance(s, (int, float)) else Op()
@@ -750,6 +758,19 @@ class Interp:
         if k in ('CallExpr', 'CXXMemberCallExpr', 'CXXOperatorCallExpr'):
             val[i] = self.do_call(fn, e, env, val, this, depth)
             return
+        if k == 'CXXNewExpr' and e.get('nplace') == 1 and e.get('place'):
+            tgt = self.rv(V(e['place'][0]))
+            iv = self.rv(V(e['init'])) if e.get('init') is not None else None
+            if isinstance(iv, Rec):
+                iv = copy_rec(iv)
+            if isinstance(tgt, It):
+                self.deref_it(tgt, fn, e).store(iv)
+                val[i] = tgt
+                return
+            self.broken(fn, e, 'placement new at a %s' % type(tgt).__name__)
+        if k == 'CXXPseudoDestructorExpr' or (k in ('CXXMemberCallExpr', 'CallExpr') and (e.get('fq') or '').endswith('::~')):
+            val[i] = None
+            return
         if k in ('AttributedStmt', 'NullStmt', 'AutoDtor', 'TempDtor', 'MemberDtor', 'BaseDtor', 'DeleteDtor', 'LifetimeEnds', 'ScopeEnd', 'ScopeBegin'):
             return
         self.broken(fn, e, 'expression kind %s is not modelled' % k)
@@ -777,6 +798,8 @@ class Interp:
 
     def do_call(self, fn, e, env, val, this, depth):
         fq = e.get('fq') or ''
+        if not fq and e.get('c') and fn.N(e['c'][0]).get('k') == 'CXXPseudoDestructorExpr':
+            return None                      # p->~T() of a scalar: nothing happens
         argids = e.get('args')
         if argids is None:
             argids = (e.get('c') or [])[1:]
@@ -793,7 +816,7 @@ class Interp:
                 ov = o.load()
             else:
                 ov = o
-            if isinstance(ov, It) and not self.is_vec_method(fq):
+            if isinstance(ov, It) and not (self.is_vec_method(fq) and not getattr(self, 'raw_vectors', False)):
                 ov = self.deref_it(ov, fn, e).load()
             elif isinstance(ov, Ptr):
                 if ov.rec is None:
@@ -807,7 +830,7 @@ class Interp:
             obj = ov
             args = args[1:]
         short = fq.split('::')[-1]
-        if fq.startswith('graphite2::Vector<'):
+        if fq.startswith('graphite2::Vector<') and not getattr(self, 'raw_vectors', False):
             return self.vec_native(fn, e, short, obj, args)
         if fq.startswith('std::numeric_limits<float>::max'):
             return Op('max')
